@@ -397,6 +397,8 @@ structure Outcome (K : Type) where
   order : List (Session K)
   trace : List (String × Nat × Bool)
   rd : Rampdown K
+  /-- what is left in the round-robin deque when the loop's fuel is used up (`rr_terminates`: nothing) -/
+  queueLeft : List (Session K) := []
 
 /-- `SortedSchedulingAlgo.schedule` / `RoundRobin.schedule` up to `format_array_schedule` -/
 def scheduleCall [HasCeilNat K] (feas : List K → Bool) (cfg : Config K) (infra : Infra K)
@@ -415,7 +417,7 @@ def scheduleCall [HasCeilNat K] (feas : List K → Bool) (cfg : Config K) (infra
       match roundRobin feas (rrLevels infra period cfg.inc) infra queue with
       | .error e => { result := .error e, pre := pre, order := queue, trace := [], rd := rd' }
       | .ok st => { result := .ok st.sched, pre := pre, order := queue, trace := st.trace.reverse,
-                    rd := rd' }
+                    rd := rd', queueLeft := st.queue }
 
 end
 end Acn.Sorted
